@@ -172,6 +172,7 @@ P_C02_UninstallListed ==
     \A r \in DOMAIN man : man[r].pol = "keep" => r \in Range(Trace[l].kept)
 \* the stored records of other releases (names extending / prefixing this one) are objects outside the release
 P_C02_Foreign == (l > 0 /\ l <= Len(Trace)) => Trace[l].state.foreign = fgn
+P_C02_Strangers == AtEnd => C02_Strangers(EPre, S, esum)
 P_C02_Bystanders   == IsCall => C02_Bystanders(pre[CurProc].store, B, S, CurU.chart)
 
 P_C03_Error         == AtEnd => C03_Error(esum)
@@ -241,6 +242,7 @@ Checks == <<
   [n |-> "C02_Uninstall",     v |-> P_C02_Uninstall],
   [n |-> "C02_UninstallListed", v |-> P_C02_UninstallListed],
   [n |-> "C02_Foreign",       v |-> P_C02_Foreign],
+  [n |-> "C02_Strangers",     v |-> P_C02_Strangers],
   [n |-> "C02_Bystanders",    v |-> P_C02_Bystanders],
   [n |-> "C03_Error",         v |-> P_C03_Error],
   [n |-> "C03_Failed",        v |-> P_C03_Failed],
